@@ -225,6 +225,9 @@ pub fn run(sc: &Scenario, replay: Option<Vec<String>>) -> Outcome {
             let tick = || clock.fetch_add(1, Ordering::SeqCst);
             for op in ops {
                 let inv = tick();
+                if std::env::var_os("VERIF_TRACE").is_some() {
+                    eprintln!("T{t} op {op:?} inv={inv}");
+                }
                 let rec_w = |reg: Reg, val: Option<String>, inv: u64| {
                     let ret = tick();
                     hist.lock().writes.entry(reg).or_default().push(WriteEv { inv, ret, val });
